@@ -50,10 +50,12 @@ public:
 	}
 	SmartObject& operator=(const SmartObject& n)
 	{
-		unref();
+		SmartObject_* old = _p; // take the new reference first: n may be this same handle or owned by *old
 		_p = n._p;
 		if (_p)
 			++_p->rc;
+		if (old && --old->rc == 0)
+			delete old;
 		return *this;
 	}
 	~SmartObject()
